@@ -22,6 +22,7 @@ from vlib.pdfwrite import D, N, R, Real, Stream
 # --------------------------------------------------------------------------
 COLLECTIONS = {
     "Adobe-Identity": (b"Adobe", b"Identity", 0),
+    "Adobe-UCS": (b"Adobe", b"UCS", 0),
     "Adobe-Japan1": (b"Adobe", b"Japan1", 6),
     "Adobe-GB1": (b"Adobe", b"GB1", 5),
     "Adobe-CNS1": (b"Adobe", b"CNS1", 6),
@@ -34,11 +35,14 @@ def cid_system_info(collection):
     return D(Registry=reg, Ordering=order, Supplement=sup)
 
 
-def font_descriptor(fontname="CIDFoo", fontfile2=None, bbox=(0, -200, 1000, 900)):
+def font_descriptor(fontname="CIDFoo", fontfile2=None, bbox=(0, -200, 1000, 900), missing_width=None):
     d = D(Type=N("FontDescriptor"), FontName=N(fontname), Flags=4, FontBBox=list(bbox), ItalicAngle=0,
           Ascent=880, Descent=-120, CapHeight=700, StemV=80)
     if fontfile2 is not None:
         d[b"FontFile2"] = fontfile2
+    if missing_width is not None:
+        # /MissingWidth is for the simple fonts; the default advance of a CIDFont is /DW (ISO 32000-1 9.7.4.3)
+        d[b"MissingWidth"] = missing_width
     return d
 
 
